@@ -140,5 +140,33 @@ pub fn source_subjects() -> Vec<Subject> {
             }));
         }
     }
+    // Files larger than a buffered reader's internal buffer (8 KiB = 1024
+    // serialized samples), so that reads get served in pieces from it.
+    for len in [1030usize, 2051] {
+        let data: Vec<u64> = (0..len as u64).map(|i| 1000 + i).collect();
+        for repeat in [Some(1u64), Some(2)] {
+            let variant = format!("len={len} repeat={repeat:?}");
+            let path = tmp_path(&format!("file-{len}"));
+            std::fs::write(&path, serialize(&data)).unwrap();
+            let p2 = path.clone();
+            let mut s = src_subject("FileSource", variant.clone(), &data, repeat, None, move || {
+                let (mut b, o) = FileSource::<B>::new(&p2).unwrap();
+                b.repeat(rep_of(repeat));
+                (bx(b), o)
+            });
+            s.horizon_delta = -1;
+            v.push(s);
+            let base = tmp_path(&format!("rec-{len}.sigmf"));
+            std::fs::write(format!("{}-meta", base.display()), SIGMF_META).unwrap();
+            std::fs::write(format!("{}-data", base.display()), serialize(&data)).unwrap();
+            let b2 = base.clone();
+            let mut s = src_subject("SigMFSource", variant.clone(), &data, repeat, None, move || {
+                let (b, o) = SigMFSourceBuilder::<B>::new(b2.clone()).repeat(rep_of(repeat)).build().unwrap();
+                (bx(b), o)
+            });
+            s.horizon_delta = -1;
+            v.push(s);
+        }
+    }
     v
 }
